@@ -9,7 +9,7 @@ RULE = ("seeded random nested formulas over boolean leaves from All/Any/AtLeast(
         "AtLeast/AtMost receive their propositions as list / tuple / generator / iterator / map; built trees compared structurally with the model's `build`; oracle: full truth table (<=6 leaves) "
         "against an independent truth function; non-trivial = at least one nested connective")
 ASSUMPTIONS = ["AtLeast(k) with k<=0 and no explicit sign means -(sum) >= k by the constructor's documented sign rule (DESIGN §4 C04)",
-               "validated models with pairwise distinct arguments"]
+               "validated models with pairwise distinct arguments — plus one stream outside validation: an explicitly named sub-formula next to its own negation (one id, two different propositions), where the constructors count distinct propositions"]
 
 PLOG = ["All", "Any", "AtLeast", "AtLeastS", "AtMost", "Xor", "ExactlyOne", "XNor", "Imply", "Not"]
 
@@ -314,6 +314,26 @@ def run(ctx):
             continue
         made += 1
         ctx.tags["negated-mixed-stream"] += 1
+        do_case(ctx, {"ast": a})
+    # an explicitly named sub-formula next to its own negation (`Not` keeps the name, so one connective holds two different
+    # propositions under one id): the statement is about formulas, not about validated models, and the constructors count
+    # distinct PROPOSITIONS — All(P, Not(P)) is a contradiction, Any(P, Not(P)) a tautology, All(P→x, ¬P→x) is x
+    for _ in range(n // 8):
+        rng = ctx.rng
+        P = {"c": rng.choice(["Any", "All", "Xor", "AtMost", "AtLeast"]), "args": [{"c": "str", "id": x} for x in rng.sample("abcd", rng.randint(1, 3))], "id": "P"}
+        if P["c"] in ("AtMost", "AtLeast"): P["v"] = rng.randint(1, len(P["args"]))
+        nP = {"c": "Not", "arg": P}
+        shape = rng.random()
+        if shape < 0.5:
+            args = [P, nP] + ([{"c": "str", "id": "e"}] if rng.random() < 0.4 else [])
+            rng.shuffle(args)
+            a = {"c": rng.choice(["All", "All", "Any", "Xor", "XNor"]), "args": args}
+        else:
+            a = {"c": rng.choice(["All", "All", "Any"]), "args": [{"c": "Imply", "cond": P, "cons": {"c": "str", "id": "x"}},
+                                                               {"c": "Imply", "cond": nP, "cons": {"c": "str", "id": "x"}}]}
+        if rng.random() < 0.3: a = {"c": rng.choice(["Not", "Any"]), **({"arg": a} if False else {}), "args": [a, {"c": "str", "id": "w"}]}
+        if a["c"] == "Not": a = {"c": "Not", "arg": a["args"][0]}
+        ctx.tags["named-sub-formula-next-to-its-negation"] += 1
         do_case(ctx, {"ast": a})
     for _ in range(n // 2):
         do_case(ctx, {"cic": gen_cic(ctx.rng), "mode": ctx.rng.choice(["default", "default", "str", "ident", "var"])})
